@@ -67,6 +67,9 @@ impl Val {
 pub enum Signer {
     Own,
     Other,
+    /// (CombinedKey only, only as the LAST step of a history) a key of the other signature scheme: outside the
+    /// quantifier of C05/C06/C07/C08/C10, but the size bound, size() and totality still apply
+    Alt,
 }
 
 #[derive(Clone, Debug, PartialEq, Eq, Serialize, Deserialize, Hash)]
